@@ -46,6 +46,10 @@ def gen_op(rng, n, kind):
             op = dict(cls="Fock", regs=[rng.randrange(n)], pars=[rng.choice([0, 1, 2])])
         else:
             op = sim.rand_gaussian_op(rng, n, classes=[cls], allow_two=False, allow_channel=False)
+    elif kind == "passive":     # natively applied multi-mode passive transformation, mode list in any order
+        op = sim.rand_passive_op(rng, np.random.default_rng(rng.getrandbits(32)), n)
+    elif kind == "gprep":       # natively applied multi-mode Gaussian preparation
+        op = sim.rand_gaussian_prep_op(rng, np.random.default_rng(rng.getrandbits(32)), n)
     else:  # measurement with post-selection
         cls = rng.choice(["MeasureFock", "MeasureHomodyne", "MeasureHeterodyne"])
         if cls == "MeasureFock":
@@ -67,6 +71,10 @@ def backends_for(op):
     if c == "Fock":             # bosonic accepts non-Gaussian preparations only as the first operation of a mode
         return ["fock-pure", "fock-mixed"]
     if c == "ThermalLossChannel":
+        return ["gaussian", "bosonic"]
+    if c == "PassiveChannel":
+        return ["gaussian"]
+    if c == "Gaussian":
         return ["gaussian", "bosonic"]
     if c == "MeasureFock":      # post-selected photon counting is implemented by the fock back end only
         return ["fock-pure", "fock-mixed"]
@@ -116,6 +124,7 @@ def check_case(ctx, sf, prefix, op, n, backend, cutoff=8):
     ctx.oracle_cases += 1
     is_meas = op["cls"].startswith("Measure")
     is_prep = op["cls"] in PREPS + ["Fock"]
+    is_gprep = op["cls"] == "Gaussian"
     try:
         st0 = run_state(sf, spec0, backend, cutoff)
         st1 = run_state(sf, spec1, backend, cutoff)
@@ -162,7 +171,7 @@ def check_case(ctx, sf, prefix, op, n, backend, cutoff=8):
                      f"{op['cls']}{'.H' if op.get('dagger') else ''} on modes {T} changed the reduced state of the "
                      f"spectators {S} by {d:.3g} on {backend}", rp)
     # 2. post-state of preparations / measurements: target uncorrelated with the rest, in the documented state
-    if is_prep or is_meas:
+    if is_prep or is_meas or is_gprep:
         def cross(s0, s1):
             a1 = moments(sf, s1, backend)
             c = max([abs(a1[1][i, j]) + abs(a1[2][i, j]) for i in T for j in S] + [0.0])
@@ -172,6 +181,14 @@ def check_case(ctx, sf, prefix, op, n, backend, cutoff=8):
         if c > budget(loss) and escalate(cross):
             ctx.fail(f"target-correlated:{backend}:{op['cls']}",
                      f"after {op['cls']} on {T} the target is still correlated with the rest ({c:.3g}) on {backend}", rp)
+        if is_gprep:      # documented multi-mode post state: exactly (V, r) on the listed modes in the listed order
+            ref = sim.RefState(len(T))
+            sim.ref_apply(ref, dict(op, regs=list(range(len(T)))), sf.hbar)
+            d = sim.moment_dist(restrict(m1, T), ref.alpha_N_M())
+            if d > 1e-8:
+                ctx.fail(f"post-state:{backend}:Gaussian", f"Gaussian(V, r) on modes {T} did not prepare (V, r) on those modes in "
+                         f"that order on {backend} (distance {d:.3g})", rp)
+            return
         # documented single-mode post state
         ref = sim.RefState(1)
         if is_prep and op["cls"] != "Fock":
@@ -194,9 +211,10 @@ def check_case(ctx, sf, prefix, op, n, backend, cutoff=8):
 def run(ctx, sf):
     sf.hbar = 2
     simcorr.run_fock_corr(ctx, ctx.n(220, 2200))
+    simcorr.run_bos_corr(ctx, ctx.n(100, 1000))
     simcorr.run_gauss_corr(ctx, ctx.n(100, 1000))
     rng = ctx.rng
-    kinds = ["g1", "g2", "nong", "ch", "prep", "meas"]
+    kinds = ["g1", "g2", "nong", "ch", "prep", "meas", "passive", "gprep"]
     for it in range(ctx.n(48, 600)):
         n = rng.choice([2, 3, 3, 4])
         prefix = sim.correlated_prefix(rng, n)
